@@ -382,9 +382,11 @@ theorem C09_save_reset_load_general {s : State} {k : Option Snap} (h : Reachable
 
 /-- **C09, save – Reset – load round trip.**  For every state `s` the driver can reach with any commands (`Reachable`
     plus earlier `save`/`load`), not out of fuel, whose `Reset()` does not run out of fuel, in which
-    * `hcalls`: no thread record is linked to a host-call record — this **excludes** exactly the states in which a thread
-      started by the host through an `Event` (`call`, not `callv`) is still suspended: its link is not archived, after the
-      load the record stays `pending` for ever (`C09_save_reset_load_general` says what the loaded state is then);
+    * `hcalls`: no thread record is linked to a host-call record — this **excludes** the states in which a thread started
+      by the host through an `Event` (driver `call`, not `callv`) has not ended yet (the link is set at the call and stays
+      on the record while the thread is suspended): the link is not archived, after the load the record stays `pending`
+      for ever (`C09_save_reset_load_general` says what the loaded state is then).  It cannot be dropped: `load` sets
+      `call := none` by definition, so with a linked thread `load X (save s) ≠ s` for every context `X`;
     * `hev`: no timeout event is posted — this **excludes** the states in which a thread sits in `waittill … timeout`
       (posted events are not archived; `Reset()` cancels them);
     the driver's `save; load` gives back **exactly `s`** (every field), and so does `save; reset-director; script s.prog;
@@ -402,6 +404,15 @@ theorem C09_save_reset_load_roundtrip {s : State} {k : Option Snap} (h : Reachab
   obtain ⟨a1, a2, a3⟩ := C09_save_reset_load_general h hfuel ho
   rw [archivable_eq_self s hcalls hev] at a1 a2 a3
   exact ⟨a1, a3, a2, fun future => by rw [a1]⟩
+
+/-- **`hcalls` is necessary**: whatever the context, if loading the snapshot of `s` gives back `s`, then no thread of `s`
+    was linked to a host-call record (`load` never restores a link) — and no event was posted if the context had none -/
+theorem C09_roundtrip_hypotheses_necessary (s X : State) (h : load X (save s) = s) :
+    (∀ e ∈ s.threads, e.2.call = none) ∧ (X.events = [] → s.events = []) := by
+  refine ⟨fun e he => C09_host_result_link_dropped X (save s) e (by rw [h]; exact he), fun hx => ?_⟩
+  have : (load X (save s)).events = X.events := rfl
+  rw [h] at this
+  rw [this, hx]
 
 /-- the `load` of the round trip is a legal driver command: its side conditions in `ReachableSL.load` (the implied
     `Reset()` has fuel left; the objects that are wait sources in the snapshot exist) follow, the second one from the
@@ -462,5 +473,13 @@ example :
   have h := C09_save_reset_load_roundtrip (Reachable.toSL ((reachable_iff _).2 ⟨demoSLv, by decide, rfl⟩))
     (by decide +kernel) (by decide +kernel) (by decide +kernel) (by decide +kernel)
   ⟨h.1, h.2.1, by decide +kernel⟩
+
+/-- necessity, non-vacuously: the round trip of `demoSLv` holds, so its two hypotheses do; at the save point of `demoSL`
+    (thread 100 linked) no context whatsoever gives the state back -/
+example : (∀ e ∈ (runOps {} demoSLv).threads, e.2.call = none) ∧ ∀ X : State, load X (save (runOps {} demoSL)) ≠ runOps {} demoSL :=
+  ⟨(C09_roundtrip_hypotheses_necessary _ _
+      (C09_save_reset_load_roundtrip (Reachable.toSL ((reachable_iff _).2 ⟨demoSLv, by decide, rfl⟩))
+        (by decide +kernel) (by decide +kernel) (by decide +kernel) (by decide +kernel)).1).1,
+   fun X h => absurd ((C09_roundtrip_hypotheses_necessary _ X h).1) (by decide +kernel)⟩
 
 end Morfuse.Sched
